@@ -345,7 +345,7 @@ def check_c03(m, result):
     try:
         same = iso.isomorphic(c1, e1, c2, e2)
     except iso.Inconclusive:
-        S.ctx and S.ctx.inconclusive.append("c03 iso budget")
+        S.ctx and S.ctx.hard_inconclusive.append("c03: isomorphism oracle exhausted its budget")
         same = True
     if not same:
         return {"what": "parse(tucan(G)) is not colour-isomorphic to G", "string": result[:400], "input": _graph_json(m)}
@@ -573,9 +573,8 @@ def compare_parse(s, outcome, value):
     except tucan_grammar.Reject as r:
         ref_ok = False
         reason = r.reason
-    import tucan.parser.parser as pp
     if outcome == "raise":
-        if not isinstance(value, pp.TucanParserException):
+        if not isinstance(value, parser_exception_type()):
             return {"what": "rejected with an unrelated exception type", "string": s[:400], "exception": f"{type(value).__name__}: {value}"[:300]}
         if ref_ok:
             return {"what": "library rejects a string the reference reader accepts", "string": s[:400], "exception": str(value)[:300]}
@@ -601,6 +600,16 @@ def compare_parse(s, outcome, value):
     if ctx is not None:
         ctx.count("accepted")
     return None
+
+
+def parser_exception_type():
+    """The parser's own exception type, through the public export first."""
+    try:
+        from tucan.io import TucanParserException
+        return TucanParserException
+    except Exception:
+        import tucan.parser.parser as pp
+        return pp.TucanParserException
 
 
 def _make_parse_wrapper(orig):
